@@ -473,7 +473,7 @@ theorem expandLoop_pres {P : Proj} {I : St → Prop} (K : Kept P I) (fuel : Nat)
       · rename_i g _
         split
         · exact ih _ _ _ _ h
-        · have h1 : I (enter (curOf true g) (compileRoot P g) s).st :=
+        · have h1 : I (enter (starCur P g) (compileRoot P g) s).st :=
             enter_pres K.cur _ _ s (K.compile g _ (K.cur _ _ h))
           refine pres_bind h1 ?_
           intro t' s' he
